@@ -252,6 +252,7 @@ func checkC19(p *Prog, r *Report) {
 	_ = roundSec
 	r.Check("R4", "relative-end-time-seconds", okRel, "", "the remaining duration (end time minus now) is rounded to a second")
 	c18CustomJSONGuards(p, r, "R5")
+	c19Extra(p, r)
 	r.Rule("R6", "the decimal count of a scaled number is read off the shortest exact decimal rendering of the value: strconv.FormatFloat with format 'f', precision -1 and the bit size of the value's own type (64 for a float64 that was not widened from float32)")
 	nFmt := 0
 	for _, fn := range p.RepoFns("model", "spine", "util") {
@@ -305,4 +306,67 @@ func constFloat(v ssa.Value) (float64, bool) {
 	}
 	f := c.Float64()
 	return f, true
+}
+
+// c19Extra: two violation patterns of the temporal conversions.
+func c19Extra(p *Prog, r *Report) {
+	r.Rule("R7", "a duration is rendered exactly as the period library built it: no imprecise normalisation (Normalise(false) folds days into months of 30.44 days) between period.NewOf and String()")
+	nP := 0
+	for _, fn := range p.RepoFns("model") {
+		idx := 0
+		forEachCall(fn, func(site ssa.CallInstruction) {
+			callee := site.Common().StaticCallee()
+			if callee == nil || !strings.HasSuffix(fnPkgPath(callee), "/period") {
+				return
+			}
+			nP++
+			if callee.Name() == "Normalise" || callee.Name() == "Simplify" {
+				idx++
+				precise := false
+				if callee.Name() == "Normalise" {
+					args := callArgs(site.Common())
+					if len(args) == 1 {
+						if b, ok := constBool(args[0]); ok && b {
+							precise = true
+						}
+					}
+				}
+				r.Check("R7", fmt.Sprintf("%s|%s#%d", FnName(fn), callee.Name(), idx), precise, p.InstrPos(site), "the period is rewritten by "+callee.Name()+" before it is rendered or evaluated: an imprecise rewrite loses part of the duration on the way back")
+			}
+		})
+	}
+	if nP > 0 {
+		r.Pass("R7", "period library calls", "", fmt.Sprintf("%d calls into the period library examined", nP))
+	}
+	r.Floor("R7", "calls into the period library", nP, 2)
+	customDecoderFresh(p, r, "R8")
+}
+
+// customDecoderFresh: a custom UnmarshalJSON decodes into a fresh local value and
+// assigns the receiver afterwards. Decoding into the receiver (or an alias of it)
+// keeps fields of the previous value the text does not mention and writes through
+// pointers shared with copies taken earlier.
+func customDecoderFresh(p *Prog, r *Report, rule string) {
+	r.Rule(rule, "every custom UnmarshalJSON hands encoding/json a fresh local value and assigns the receiver afterwards (decoding into the receiver itself keeps stale fields and writes through pointers shared with earlier copies)")
+	n := 0
+	for _, fn := range p.RepoFns("model", "spine") {
+		if fn.Name() != "UnmarshalJSON" || fn.Signature.Recv() == nil {
+			continue
+		}
+		forEachCall(fn, func(site ssa.CallInstruction) {
+			callee := site.Common().StaticCallee()
+			if callee == nil || fnPkgPath(callee) != "encoding/json" || callee.Name() != "Unmarshal" || len(site.Common().Args) < 2 {
+				return
+			}
+			n++
+			v := site.Common().Args[1]
+			if mi, ok := v.(*ssa.MakeInterface); ok {
+				v = mi.X
+			}
+			_, fresh := v.(*ssa.Alloc)
+			fromRecv := forwardTaint(fn.Params[0])[v]
+			r.Check(rule, FnName(fn)+"|target", fresh && !fromRecv, p.InstrPos(site), fmt.Sprintf("decodes into %s (fresh local: %v, derived from the receiver: %v)", Path(v), fresh, fromRecv))
+		})
+	}
+	r.Floor(rule, "custom decoders", n, 1)
 }
